@@ -587,6 +587,13 @@ def gen_setup_client(rng, knobs=None):
     if opts.get('honor_lease_c'):
         prog.append(['lease', 5, 10000])
         prog.append(['pump'])
+    for _ in range(rng.choice([0, 0, 1, 1, 2])):
+        # "... on every new connection": the SETUP of the connection made by a reconnect states the same configuration
+        prog.append(['reconnect'] if rng.random() < 0.7 else ['reconnect', rng.choice([2, 5, 9])])
+        prog.append(['pump'])
+        if rng.random() < 0.5:
+            prog.append(['rr', 'c', spec(rng, big=False), {'mode': 'immediate', 'resp': spec(rng, big=False)}])
+            prog.append(['pump'])
     prog.append(['finish'])
     return opts, prog
 
@@ -739,6 +746,17 @@ def gen_reconnect(rng, knobs=None):
                 prog.append(['deliver_nosettle', 's' if ep == 'c' else 'c', None])
                 prog.append(['settle'])
                 who_done = True
+        if who == 'app' and not who_done and k.get('p_close_race') and rng.random() < k['p_close_race']:
+            # the application closes the client while a reconnect it asked for is under way (after j loop callbacks of it): the
+            # client must end up closed - no further transport taken, nothing sent any more, keep-alives included
+            prog.append(['reconnect', rng.choice([0, 1, 2, 3, 4, 5, 6, 7, 8, 9, 10, 11, 12, 14, 20])])
+            prog.append(['close', 'c'])
+            prog.append(['settle'])
+            prog.append(['advance', 2 * period + 10])
+            prog.append(['pump'])
+            prog.append(['advance', period + 1])
+            prog.append(['finish'])
+            return opts, prog
         if who == 'app' and not who_done:
             if rng.random() < k.get('p_window', 0.45):
                 # the application keeps issuing requests while the reconnect is under way: after k loop callbacks of it
